@@ -24,6 +24,7 @@ fn main() {
     }
     let code = match args[0].as_str() {
         "run" => run::main(&args[1..]),
+        "runsrc" => run::main_src(&args[1..]),
         "lexrun" => lexrun::main(&args[1..]),
         "target" => target::main(&args[1..]),
         "rqjson" => rqjson::main(&args[1..]),
